@@ -142,10 +142,19 @@ Definition syntax_label (ts : list tok) : list (list Z) :=
   | 34 :: body => match read_quoted body with ROk s [] => [s] | _ => [] end
   | _ => []
   end.
+Fixpoint all_some {A} (l : list (option A)) : option (list A) :=
+  match l with
+  | [] => Some []
+  | Some x :: r => match all_some r with Some y => Some (x :: y) | None => None end
+  | None :: _ => None
+  end.
 Definition check_label_case (c : label_case) : bool :=
   let '(ls, np, (fresh, relexed, syn)) := c in
-  let nodes := replace_labels (print_of np) ls in
-  zll_eqb (current_labels (map LQuoted nodes)) (map unhex fresh) &&
-  zll_eqb (current_labels (map relexed_node nodes)) (map unhex relexed) &&
-  zll_eqb (flat_map syntax_label nodes) (map unhex syn).
+  match all_some (replace_labels (print_of np) ls) with
+  | None => false
+  | Some nodes =>
+      zll_eqb (current_labels (map LQuoted nodes)) (map unhex fresh) &&
+      zll_eqb (current_labels (map relexed_node nodes)) (map unhex relexed) &&
+      zll_eqb (flat_map syntax_label nodes) (map unhex syn)
+  end.
 Definition check_label_cases (cs : list label_case) : list Z := failing check_label_case cs.
